@@ -32,7 +32,9 @@ chk(
     "Exploration with a law oracle: every pair of the reduced small universe (thorough: complete, 41 canonical ref trees x "
     "all new trees with an inode pool of 4) plus random larger trees is run through the real DirectorySnapshot/"
     "DirectorySnapshotDiff and judged by the laws of the statement (set equalities keyed by inode, accounting equation, "
-    "modified iff identity kept and mtime/size changed, kind lists, self-diff empty, mirror, ignore_device).",
+    "modified iff identity kept and mtime/size changed, kind lists, self-diff empty, mirror, ignore_device); random pairs include a root "
+    "whose own identity changes while its old/new inode stays inside the tree; the subtraction and ContextManager entry points; and every "
+    "diff the real PollingEmitter builds on the real disk during hostile histories (postcondition wrapper on DirectorySnapshotDiff.__init__).",
     "Trusted: the oracle in wdverif/oracles/difflaws.py (written from the statement, reads only public accessors); "
     "the VFS feeding stat/listdir. Inode-number symmetry is assumed for the enumerated part only.",
 )
@@ -55,8 +57,9 @@ chk(
     "Exploration: (a) every put/get sequence up to length 6 (thorough 7) over 5 values against a sequential model, each put a fresh "
     "object so drops are observed by identity; (b) recorded histories of <=3 producers + 1 consumer on real threads checked for "
     "linearizability (Wing-Gong + memo) against 'a put may be dropped only if equal to the last accepted, still queued put', driven by "
-    "sys.monitoring noise and by holding a thread at every executed line of SkipRepeatsQueue.put/_put/_get; (c) equality/hash law over "
-    "all pairs of 156 event objects.",
+    "sys.monitoring noise and by holding a thread at every executed line of every function the SkipRepeatsQueue class defines; producers "
+    "also record qsize() observations (an op of the sequential model), so 'taken out' is observable before get() has returned; "
+    "(c) equality/hash law over all pairs of 156 event objects.",
     "Not dropping a duplicate is never a violation (statement forbids only loss). Trusted: the linearizability checker and the "
     "reference equality. Preemption only at line granularity; coordinated multi-preemption schedules are sampled, not enumerated.",
 )
@@ -91,7 +94,9 @@ chk(
     "Exploration: all 5187 trees (names {a,b,ab}, depth<=3, <=5 entries) x {absolute, relative} x {str, bytes} x 4 (src,dest) "
     "name pairs (thorough: complete; quick: strided) built as real directories below a base path that repeats the same names; "
     "generate_sub_moved_events / generate_sub_created_events output compared as a multiset with a reference from the harness's own "
-    "scandir walk + os.path.join; parents before children; all synthetic; path type preserved.",
+    "scandir walk + os.path.join; parents before children; all synthetic; path type preserved; random trees also hold symbolic links "
+    "(one descendant each, nothing behind them). Third anchor (the watch-path map rewrite): directed and random rename / name re-use "
+    "histories on a real recursive inotify observer, judged by probes in every directory and by replay.",
     "Trusted: the reference walk. An absent source ('' for the full emitter) may be str or bytes.",
 )
 
@@ -101,7 +106,8 @@ chk(
     "Exploration: product of 12 event classes x 7 src x 5 dest x 12 include x 12 exclude lists x case_sensitive x ignore_directories "
     "for PatternMatchingEventHandler and RegexMatchingEventHandler (thorough: complete, quick: 1/12 strided), base handler on every "
     "class, filter_paths/match_any_paths on 6 path lists x 144 pattern pairs x 2; each dispatch is compared with a reference evaluator "
-    "written from the statement; a shared handler instance is also driven from two threads under sys.monitoring noise.",
+    "written from the statement; a shared handler instance is also driven from two threads under sys.monitoring noise; callbacks re-bound "
+    "on the instance / class after earlier dispatches must be the ones called.",
     "Trusted: the reference evaluator (PurePosixPath/PureWindowsPath.match, re.match; only non-empty paths are examined).",
 )
 
@@ -255,7 +261,9 @@ chk(
     "events with real inodes, flag coalescing per (item, path), extra cuts) and fed to the real queue_events()/events_callback(); after "
     "every delivery the emitter's stream is replayed and compared with the disk; operations alone in a delivery are judged for the "
     "rename / move-in / move-out contract; non-recursive scope; no swallowed exception. Decoders: random buffers of 0-6 records, name "
-    "lengths 0-255 (inotify) / 1-300 UTF-16 units incl. non-BMP and U+FEFF (Windows), paddings.",
+    "lengths 0-255 (inotify) / 1-300 and 1000-9000 UTF-16 units incl. non-BMP and U+FEFF (Windows), paddings; a decoder exception is a "
+    "violation. FSEvents 'reuse' regime: inodes freed by reported deletions may be re-used after that delivery; invariant at every "
+    "delivery: the emitter's inode set holds no item whose last native record said Removed.",
     "Conditional on simulator fidelity (listed under assumptions in the evidence): neither OS is present. Seven genuine deviations "
     "are recorded as known findings (F13a-c, F14, F23-F25) and matched by mechanism; they cannot be confirmed on the real systems from here.",
 )
